@@ -18,6 +18,7 @@ def _pats():
     PR = lambda n: {"k": "reduce", "n": n}
     PAl = lambda n: {"k": "alloc", "n": n}
     PP = {"k": "pass"}
+    PW = lambda n, v: {"k": "wcfg", "n": n, "v": v}
     PF = lambda n, b: {"k": "for", "n": n, "body": b}
     PI = lambda b, e: {"k": "if", "body": b, "orelse": e}
     return [
@@ -27,7 +28,7 @@ def _pats():
         [PA("a", 0), PA("b", 0)], [PA("a", 0), Hole, PA("b", 0)], [Hole, PA("b", 0)],
         [PA("a", 0), Hole], [PF("_", [Hole, PA("b", 0)])], [PI([PA("a", 0)], [Hole])],
         [PF("_", [PF("_", [Hole])])], [PP, PP], [PF("i", [Hole]), PF("j", [Hole])],
-        [PI([PP], [])]]
+        [PI([PP], [])], [PW("f", 0)], [PW("f", 1)], [PW("f", 2), Hole]]
 
 
 PATTERNS = _pats()
@@ -46,6 +47,8 @@ def render(pats, ind=0):
             lines.append(pad + f"{p['n']} += _")
         elif k == "alloc":
             lines.append(pad + f"{p['n']} : _")
+        elif k == "wcfg":
+            lines.append(pad + f"PCfg.{p['n']} = " + (f"{float(p['v'])}" if p["v"] else "_"))
         elif k == "pass":
             lines.append(pad + "pass")
         elif k == "for":
@@ -60,6 +63,20 @@ def render(pats, ind=0):
     return "\n".join(lines)
 
 
+_CFG = []
+
+
+def _cfg():
+    if not _CFG:
+        from exo import config
+
+        @config
+        class PCfg:
+            f: f32
+        _CFG.append(PCfg)
+    return _CFG[0]
+
+
 def build(forest):
     syms = {"a": Sym("a"), "b": Sym("b"), "t": Sym("t")}
 
@@ -69,6 +86,8 @@ def build(forest):
             return LoopIR.Assign(syms[t["n"]], T.f32, [], LoopIR.Const(float(t["v"]), T.f32, SI), SI)
         if k == "reduce":
             return LoopIR.Reduce(syms[t["n"]], T.f32, [], LoopIR.Const(float(t["v"]), T.f32, SI), SI)
+        if k == "wcfg":
+            return LoopIR.WriteConfig(_cfg(), t["n"], LoopIR.Const(float(t["v"]), T.f32, SI), SI)
         if k == "pass":
             return LoopIR.Pass(SI)
         if k == "alloc":
@@ -99,6 +118,7 @@ def normb(m):
 def replay(rec):
     p = Procedure(build(rec["tree"]))
     out = []
+    out_k = replay.last_patterns = []   # indices of the patterns whose find_all answer differed (for the signature)
     for k, want in enumerate(rec["res"]):
         want = [normb(m) for m in want]
         pat = render(PATTERNS[k])
@@ -110,6 +130,7 @@ def replay(rec):
             got, err = [], type(e).__name__
         if got != want:
             out.append(f"find_all({pat!r}): impl {got} ({err}) spec {want}")
+            out_k.append(k)
             continue
         if not want and err != "SchedulingError":
             out.append(f"find_all({pat!r}): no match must raise SchedulingError, got {err}")
